@@ -89,7 +89,8 @@ def install():
     _installed[0] = True
     repo_on_path()
     assert 'txtorcon' not in sys.modules, 'prelude.install() must run before txtorcon is imported'
-    _install_log_stripper()
+    if not os.environ.get('VERIF_NO_STRIP'):
+        _install_log_stripper()      # (the unstripped replay pass, vlib/unstripped.py, runs the real logging statements)
     gc.disable()
     import warnings
     warnings.simplefilter('ignore')
